@@ -76,8 +76,19 @@ def norm_text(x):
 
 def forms(s, allow_str=True, none_for_zero=False):
     base = [None if (none_for_zero and e == 0) else e for e in s]
+    import collections
+
+    class Sized:                  # a sized, re-iterable container that is no list (and says so itself when it is empty)
+        def __init__(self, items):
+            self._items = list(items)
+
+        def __iter__(self):
+            return iter(self._items)
+
+        def __len__(self):
+            return len(self._items)
     out = [("list", lambda: list(base)), ("tuple", lambda: tuple(base)), ("iter", lambda: iter(list(base))),
-           ("gen", lambda: (e for e in base))]
+           ("gen", lambda: (e for e in base)), ("deque", lambda: collections.deque(base)), ("sized", lambda: Sized(base))]
     if allow_str and not none_for_zero:
         txt = "".join(CH[e] for e in s)
         out.append(("str", lambda: txt))
@@ -161,6 +172,23 @@ def run_row(row):
                 chk("split_iter(keywords)/%s/sep=%s" % (name, sname), lambda: list(it.split_iter(mk(), sep=mksep(), maxsplit=msa)))
                 if ms == -1:
                     chk("split(no maxsplit)/%s/sep=%s" % (name, sname), lambda: it.split(mk(), mksep()))
+        if sep == 0 and ms == -1:
+            base0 = [None if e == 0 else e for e in s]
+            chk("split(defaults)/list", lambda: it.split(list(base0)))                   # sep omitted: None separates, runs group
+            chk("split_iter(defaults)/gen", lambda: list(it.split_iter(e for e in base0)))
+        if sep in (1, 3):
+            # a collection holding None / a predicate for None are ordinary separators: every None separates, no grouping
+            basen = [None if e == 0 else e for e in s]
+            chk("split/list/sep=[None]", lambda: it.split(list(basen), [None], msa))
+            chk("split_iter/gen/sep=is-None", lambda: list(it.split_iter((e for e in basen), lambda x: x is None, msa)))
+            # a predicate answering with something truthy / falsy that is no bool
+            chk("split/list/sep=non-bool-predicate", lambda: it.split([e for e in s], lambda x: "" if x else "sep", msa))
+            # a separator string longer than one character is ONE value among list elements, not a set of characters
+            words = {0: "ab", 1: "a", 2: "b", 3: "ba"}
+            chk("split/list-of-words/sep='ab'", lambda: it.split([words.get(e, "w%d" % e) for e in s], "ab", msa),
+                post=lambda r: [[{v: k for k, v in words.items()}.get(x, -999) for x in g] for g in r])
+            if msa is not None:
+                chk("split/list/maxsplit-int-like", lambda: it.split([e for e in s], 0, True if msa == 1 else [float(msa), str(msa)][msa % 2]))
         if sep == 0:
             # only None separates: other falsy elements (0, '', False, ()) standing where the model has 2 are kept
             for fi, fv in enumerate(FALSY):
@@ -185,6 +213,17 @@ def run_row(row):
         for name, mk in forms(s, allow_str=(kf == 0)):
             if name == "bytes":
                 continue
+            if kf == 0 and name == "list":
+                chk(f + "(key omitted)/list", lambda: (it.unique(mk()) if f == "unique" else it.redundant(mk()) if f == "redundant" else it.redundant(mk(), groups=True)))
+                # an attribute name as key: complex numbers told apart by .real (the imaginary part differs per position)
+                cplx = lambda: [complex(e, i_) for i_, e in enumerate(s)]
+                unreal = lambda r: [[int(z.real) for z in g] if isinstance(g, list) else int(g.real) for g in r]
+                if f == "unique":
+                    chk("unique(key='real')/list", lambda: it.unique(cplx(), "real"), post=unreal)
+                elif f == "redundant":
+                    chk("redundant(key='real')/list", lambda: it.redundant(cplx(), "real"), post=unreal)
+                else:
+                    chk("redundant(key='real', groups)/list", lambda: it.redundant(cplx(), "real", groups=True), post=unreal)
             if f == "unique":
                 chk("unique/" + name, lambda: it.unique(mk(), keyfn(kf)))
                 chk("unique_iter/" + name, lambda: list(it.unique_iter(mk(), keyfn(kf))))
@@ -208,6 +247,11 @@ def run_row(row):
     elif f == "chunk_ranges":
         size, chunk, offset, overlap = s
         chk("chunk_ranges", lambda: [list(r) for r in it.chunk_ranges(size, chunk, offset, overlap, row["n"] == 1)])
+        if offset == 0 and overlap == 0 and row["n"] != 1:
+            chk("chunk_ranges(defaults)", lambda: [list(r) for r in it.chunk_ranges(size, chunk)])
+        if row["n"] == 1:
+            chk("chunk_ranges(truthy align)", lambda: [list(r) for r in it.chunk_ranges(size, chunk, offset, overlap, "yes")])
+        chk("chunk_ranges(int-like)", lambda: [list(r) for r in it.chunk_ranges(float(size), str(chunk), input_offset=offset, overlap_size=overlap, align=row["n"] == 1)])
         chk("chunk_ranges(kw)", lambda: [list(r) for r in it.chunk_ranges(input_size=size, chunk_size=chunk, input_offset=offset,
                                                                          overlap_size=overlap, align=row["n"] == 1)])
     return bad
